@@ -250,6 +250,7 @@ class PathSim:
         self.bool_returns = bool_returns
         self.auto_inline = True
         self._gen_ctx = {}
+        self._synth_loops = {}
         self._count = 0
         self._fresh = 0
 
@@ -755,6 +756,13 @@ class PathSim:
                 s.ep += 1
                 s.heap.clear()
                 s.heap[ttext] = sym
+                if isinstance(sym, ast.Name) and getattr(sym, '_origin', None) is not None:
+                    # a local that holds a fresh container now also lives at this heap path: from here on the local
+                    # denotes that path (history = []; self.db[k] = history; history.append(x)  ==  self.db[k].append(x))
+                    alias = ast.Subscript(value=acc[0], slice=sl, ctx=ast.Load()) if isinstance(t, ast.Subscript) else ast.Attribute(value=acc[0], attr=t.attr, ctx=ast.Load())
+                    for k_ in list(s.env):
+                        if k_[0] == frame[1] and k_[1] == sym.id:
+                            s.env[k_] = alias
                 s.events.append(Event('store', stmt, f, text=norm(stmt), target=ttext, value=sym, ep=s.ep,
                                       loops=s.loops, recv=acc[0]))
                 out.append((s, None))
@@ -1168,6 +1176,10 @@ class PathSim:
             return out
         if isinstance(e, ast.Constant):
             return [(bool(e.value), st, None)]
+        if isinstance(e, ast.Call) and isinstance(e.func, ast.Name) and e.func.id in ('any', 'all') and len(e.args) == 1 and not e.keywords \
+                and isinstance(e.args[0], (ast.GeneratorExp, ast.ListComp)) and len(e.args[0].generators) == 1 \
+                and isinstance(e.args[0].generators[0].target, ast.Name) and self.repo.lookup(frame[0].module, e.func.id) is None:
+            return self._cond_any_all(e, st, frame, e.func.id == 'any')
         out = []
         for sym, s, sig in self.ev(e, st, frame):
             if sig is not None:
@@ -1180,6 +1192,72 @@ class PathSim:
                 out.extend(self._cond_sym(sym, s, frame, e))
             else:
                 out.extend(self._decide(sym, e, s, frame))
+        return out
+
+    def _cond_any_all(self, e, st, frame, is_any):
+        """any(P(x) for x in X) / all(...) as the loop it abbreviates (same events as a for loop with an early exit)."""
+        f = frame[0]
+        comp = e.args[0]
+        gen = comp.generators[0]
+        loop = self._synth_loops.get(id(comp))
+        if loop is None:
+            loop = ast.For(target=gen.target, iter=gen.iter, body=[], orelse=[])
+            loop.lineno = getattr(e, 'lineno', 0)
+            loop.col_offset = getattr(e, 'col_offset', 0)
+            loop._parent = getattr(e, '_parent', None)
+            self._synth_loops[id(comp)] = loop
+        out = []
+        tname = gen.target.id
+        key = (frame[1], tname)
+        for itsym, s0, sig in self.ev(gen.iter, st, frame):
+            if sig is not None:
+                out.append((None, s0, sig))
+                continue
+            base_loops = s0.loops
+            saved = s0.env.get(key)
+            pending = [(s0, 0)]
+            while pending:
+                s, k = pending.pop()
+                s_exit = s.fork()
+                s_exit.loops = base_loops
+                if saved is None:
+                    s_exit.env.pop(key, None)
+                else:
+                    s_exit.env[key] = saved
+                s_exit.events.append(Event('loop-exit', loop, f, text='for-exit', extra=k, ep=s_exit.ep, loops=base_loops))
+                out.append((not is_any, s_exit, None))
+                if k >= self.unroll:
+                    continue
+                s.loops = base_loops + ((id(loop), k),)
+                elem = ast.Name(id='<elem%d of %s>' % (k, norm(itsym)), ctx=ast.Load())
+                s.env[key] = elem
+                s.events.append(Event('loop-iter', loop, f, text='for-iter', extra=k, value=itsym, ep=s.ep, loops=s.loops))
+                cur = [s]
+                for cnd in gen.ifs:
+                    nxt = []
+                    for sx in cur:
+                        for v, s2, sg in self.cond(cnd, sx, frame):
+                            if sg is not None:
+                                out.append((None, s2, sg))
+                            elif v:
+                                nxt.append(s2)
+                            else:
+                                pending.append((s2, k + 1))
+                    cur = nxt
+                for sx in cur:
+                    for v, s2, sg in self.cond(comp.elt, sx, frame):
+                        if sg is not None:
+                            out.append((None, s2, sg))
+                        elif bool(v) == is_any:
+                            s2.loops = base_loops
+                            if saved is None:
+                                s2.env.pop(key, None)
+                            else:
+                                s2.env[key] = saved
+                            s2.events.append(Event('loop-break', loop, f, text='for-break', extra=k, ep=s2.ep, loops=base_loops))
+                            out.append((is_any, s2, None))
+                        else:
+                            pending.append((s2, k + 1))
         return out
 
     def _cond_sym(self, sym, st, frame, node):
